@@ -329,9 +329,6 @@ def body_hint_tables(ctx, r1, r3):
         if k == "once":
             pv = o.cons.variant_of(pl)
             okk = (is_const(v) and v[1] == 1 and pv == "None")
-            if not okk:
-                # value may be the is_none() result term
-                okk = isinstance(v, tuple) and pv is None
             if okk:
                 ctx.ok(r3, "one-shot: true only when the payload was taken")
             else:
